@@ -38,6 +38,8 @@ def capture_configs():
         "empty captures": [((0, 4), [(1, 1), (2, 4)]), ((4, 6), [(4, 4), (6, 6)]), ((10, n), [(n, n), None])],
         "capture at both ends": [((0, n), [(0, 3), (n - 2, n)])],
         "no groups": [((2, 4), [])],
+        "empty capture at offset 0": [((0, 1), [(0, 0)]), ((3, 5), [(3, 3), (4, 5)])],
+        "only an empty capture at offset 0": [((0, 0), [(0, 0)])],
         "two empty captures at the same offset": [((0, 2), [(1, 1), (1, 1)]), ((5, 5), [(5, 5), (5, 5), (5, 5)])],
         "identical non-empty spans in different matches": [((0, 2), [(0, 2)]), ((2, 4), [(2, 4)])],
         "empty capture where the previous capture ended": [((0, 4), [(0, 2), (2, 2), (2, 4)])],
